@@ -510,6 +510,9 @@ func runPipeline(prop string, c *plCase) (v verdict, sig string, err error) {
 		got := map[string]int{}
 		for _, h := range published {
 			b, _ := hex.DecodeString(h)
+			if prop == "C05" && !json.Valid(b) {
+				return "invalid-json", fmt.Errorf("phase %d, %s pipeline: a published payload is not a valid JSON document: %s", pi, pname, clip(string(b)))
+			}
 			got[normPayload(pname, b)]++
 		}
 		var extra, missing, dup []string
